@@ -24,7 +24,7 @@ type c17params struct {
 }
 
 func init() {
-	report.Register("C17", report.Check{Level: "model_checking", QuickBudget: 150 * time.Second, ThoroughBudget: 40 * time.Minute, Run: runC17})
+	report.Register("C17", report.Check{Level: "model_checking", QuickBudget: 240 * time.Second, ThoroughBudget: 25 * time.Minute, Run: runC17})
 	explore.Register("C17.hist", func(p string) explore.Harness {
 		var pr c17params
 		json.Unmarshal([]byte(p), &pr)
